@@ -291,17 +291,23 @@ pub fn main_seq(dispatch: Dispatch) {
         .open(&args[2])
         .expect("log file");
     install_panic_hook();
+    // Every input is parsed out of ONE reused buffer (like a line buffer in a read loop): consecutive parses see
+    // different text at the same address, so hidden state keyed by pointer / surviving a parse shows up as a
+    // wrong result on a later input.
+    let mut buf = String::with_capacity(cases.iter().map(|c| c.input.len()).max().unwrap_or(0) + 8);
     for (i, c) in cases.iter().enumerate() {
         if i < skip {
             continue;
         }
+        buf.clear();
+        buf.push_str(&c.input);
         for (bit, mode) in [(1, Mode::Noop), (2, Mode::Rec), (4, Mode::Indented)] {
             if c.modes & bit == 0 {
                 continue;
             }
             writeln!(out, "B {} {} {}", c.id, mode.name(), i).unwrap();
             out.flush().unwrap();
-            if !dispatch(c.gidx, &c.rule, mode, &c.input, c.budget) {
+            if !dispatch(c.gidx, &c.rule, mode, &buf, c.budget) {
                 logline(|l| l.push_str("R nodispatch"));
             }
             let log = take_log();
